@@ -32,7 +32,8 @@ type SweepIn struct {
 	Payloads []hx.B `json:"payloads,omitempty"`
 }
 
-var sweepSvcCode = map[string]int{"vnc": 1, "ssh-simulator": 2, "ipp": 3, "ftp-data-plain": 4, "ftp-data-tls": 5}
+var sweepSvcCode = map[string]int{"vnc": 1, "ssh-simulator": 2, "ipp": 3, "ftp-data-plain": 4, "ftp-data-tls": 5, "deploy": 6,
+	"redis": 7, "ldap": 8, "snmp": 9, "memcached": 10}
 
 func be16(v uint16) []byte { b := make([]byte, 2); binary.BigEndian.PutUint16(b, v); return b }
 func be32(v uint32) []byte { b := make([]byte, 4); binary.BigEndian.PutUint32(b, v); return b }
@@ -167,6 +168,9 @@ func runSweepConn(svc services.Servicer, sp Spec, idx int) (ob ConnObs, gone boo
 	in := sp.Sweep
 	if strings.HasPrefix(in.Svc, "ftp-data") {
 		return runFtpDataConn(svc, sp, idx)
+	}
+	if in.Scenario == 10 {
+		return runCutConn(svc, sp, idx)
 	}
 	deadline := time.Duration(sp.DeadlineMs) * time.Millisecond
 	wait := time.Duration(sp.WaitMs) * time.Millisecond
